@@ -75,7 +75,7 @@ CHECKS = {
    tech=TECH + ": FipsGateSim, enumeration of entry point x fault kind with seeded sequences"),
  "C17": dict(cat="exploration", sec="5 FipsRaceSim",
    text="FIPS_MODE=y build. 1-8 coroutine tasks race through the real check/claim/spin/publish assembly (yield points from hook H4) under seeded uniform, bursty and PCT-style schedules with injected verdicts; history oracle: self-tests entered exactly once by one task, no success return and no kernel entry before the tests finished and passed, identical verdict for every call, bounded completion after the verdict is published.",
-   note="Sequentially consistent interleavings at shared-access granularity; x86-TSO store buffering not modelled. Liveness bounded in scheduling steps under a fair fallback scheduler. fips/self_tests_generic.c (non-x86) is not part of the x86_64 archive.",
+   note="Sequentially consistent interleavings at shared-access granularity; x86-TSO store buffering not modelled. Liveness bounded in scheduling steps under a fair fallback scheduler. fips/self_tests_generic.c (non-x86, not in the x86_64 archive) is simulated as a second implementation with shimmed C11 atomics in 1 run of 4.",
    tech=TECH + ": FipsRaceSim, coroutine scheduler over hooked synchronisation points, history oracle"),
 }
 
